@@ -332,11 +332,21 @@ class Observation:
             parameter_dict=param_item.parameters,
         )
 
+        # Adjust readout configuration if required (same as with dask)
+        # TODO: Move this to 'Processor' ? See #836
+        readout: Readout = self.readout
+        for key, value in param_item.parameters.items():
+            if key.startswith("observation.readout"):
+                if key != "observation.readout.times":
+                    raise NotImplementedError(f"{key=}")
+
+                readout = readout.replace(times=value)
+
         # Run a single pipeline for the given parameters
         try:
             data_tree: "xr.DataTree" = run_pipeline(
                 processor=new_processor,
-                readout=self.readout,
+                readout=readout,
                 outputs=self.outputs,
                 pipeline_seed=self.pipeline_seed,
                 debug=False,  # Not supported in Observation mode
